@@ -353,6 +353,10 @@ func (p *c16Prop) Fields() []string { return nil }
 
 // ---- driver
 
+type c16Silent struct{}
+
+func (c16Silent) Handle(error) {}
+
 func c16Reset() {
 	globalErrorHandler = defaultErrorHandler()
 	globalTracer = defaultTracerValue()
@@ -378,9 +382,11 @@ type c16Scn struct {
 //	Cb / CbU                  g := Meter("x").Int64ObservableGauge("g"); reg := RegisterCallback(f,g) [; reg.Unregister()]
 //	Cb2U                      like CbU on a Float64ObservableCounter of meter "y", two Unregister calls
 //	Span                      Tracer("t").Start(ctx,"s").End()
+//	SelfT / SelfM / SelfP     SetXxx(Xxx()): setting the global default to itself, a reported no-op
 func c16Body(sc c16Scn, res *string) func(x *sched.Exec) {
 	return func(x *sched.Exec) {
 		c16Reset()
+		SetErrorHandler(c16Silent{}) // the self-set ops report through the global error handler
 		sdk := newC16SDK()
 		ctx := context.Background()
 		var installedAt atomic.Int64 // step+1 at which SetMeterProvider returned
@@ -422,6 +428,12 @@ func c16Body(sc c16Scn, res *string) func(x *sched.Exec) {
 					case "InstallT":
 						SetTracerProvider(c16TP{s: sdk})
 						tinstalledAt.Store(int64(x.Step()) + 1)
+					case "SelfT": // documented no-op (save-and-restore pattern): must not use up the delegation
+						SetTracerProvider(TracerProvider())
+					case "SelfM":
+						SetMeterProvider(MeterProvider())
+					case "SelfP":
+						SetTextMapPropagator(TextMapPropagator())
 					case "Ctr":
 						c, _ := MeterProvider().Meter("x").Int64Counter("c")
 						must := installedAt.Load() != 0
@@ -643,6 +655,8 @@ func c16Jobs(thorough, race bool) []c16Job {
 		{"G6-prereg-then-race", [][]string{{"Cb", "InstallM"}, {"CbU"}}},
 		{"G7-all-other-kinds", [][]string{{"InstallM"}, {"AllSync"}, {"AllAsync"}}},
 		{"G8-propagator", [][]string{{"InstallP"}, {"Inject", "Inject"}}},
+		{"G9-self-set-then-install", [][]string{{"Span", "Ctr", "Inject", "SelfT", "SelfM", "SelfP", "InstallT", "InstallM", "InstallP"}, {"Span", "Ctr", "Inject"}}},
+		{"G10-self-set-racing-install", [][]string{{"SelfT", "SelfM"}, {"InstallT", "InstallM"}, {"Span", "Ctr"}}},
 	}
 	p := 3
 	if thorough {
